@@ -67,6 +67,25 @@ def scen_cases(draw, kinds=KINDS, comps=("gzip", "zstd", "lz4", "xz", "default")
         case["sort"] = draw(st.booleans())
     else:
         ar = draw(tarimg.archives(B=B, max_entries=6, simple_names=False))
+        extra_prof = draw(st.sampled_from([None] * 10 + ["big_input", "xattr_heavy", "big_random"]))
+        fent = lambda name, data, xattrs=None: dict(name=name, type="file", mode=0o644, uid=0, gid=0, mtime=0, xattrs=xattrs or {}, data=data,
+                                                     enc=dict(fmt="ustar", num="octal", ostyle=0, xattrfmt="schily"))
+        if extra_prof == "big_input" and not readback:
+            # more input than one stream buffer (128 KiB) holds: reads come in several rounds
+            ar["entries"].append(fent(b"zz-big-input", treemodel.content_bytes(("text", 3, 0, draw(st.sampled_from([140000, 400000]))), B)))
+            case["profile"] = "big_input"
+        elif extra_prof == "xattr_heavy" and not readback:
+            # more than one 8 KiB block of xattr key/value data, with a long value shared by all (stored once, referenced)
+            import random as _r
+            rr = _r.Random(draw(st.integers(0, 99)))
+            for i in range(draw(st.sampled_from([30, 45]))):
+                ar["entries"].append(fent(b"zz-x%02d" % i, b"", {b"user.blob": bytes(rr.randrange(1, 255) for _ in range(rr.randrange(300, 500))),
+                                                                   b"user.shared": b"the same long value on every file"}))
+            case["profile"] = "xattr_heavy"
+        elif extra_prof == "big_random" and kind == "s2t":
+            # a megabyte that does not compress: a compressing output stream has to flush more than its buffer holds at once
+            ar["entries"].append(fent(b"zz-random", treemodel.content_bytes(("rand", 5, 0, 1100000), B)))
+            case["profile"] = "big_random"
         if readback:
             ar = dict(entries=[dict(name=p, type="file", mode=0o644, uid=0, gid=0, mtime=0, xattrs={}, data=treemodel.content_bytes(r, B),
                                     enc=dict(fmt="ustar", num="octal", ostyle=0)) for p, r in rb_files], end_marker=True, global_pax=False, trailing_pad=0)
@@ -77,6 +96,8 @@ def scen_cases(draw, kinds=KINDS, comps=("gzip", "zstd", "lz4", "xz", "default")
             case["img_cut"] = draw(st.sampled_from([0, 0, 0, 0, 1, 100, 4096, 4097, "half"]))
         if kind == "s2t":
             case["s2t_codec"] = draw(st.sampled_from([None, None, "gzip", "xz", "zstd", "bzip2"]))
+            if case.get("profile") == "big_random":
+                case["s2t_codec"] = draw(st.sampled_from(["bzip2", "bzip2", "gzip", "xz", "zstd"]))
         if kind == "rd_unpack":
             case["flags"] = draw(st.lists(st.sampled_from(["-C", "-O", "-T", "-X", "-Z"]), unique=True, max_size=5))
         if kind == "diff":
